@@ -13,7 +13,7 @@ QUERIES = (
     # transforms
     "h_matrix", "n_dims_output", "has_true_inverse", "linear_component", "translation_component", "aligned_source", "alignment_error",
     "source", "target", "composes_inplace_with", "composes_with", "rotation_matrix", "scale", "axis_and_angle_of_rotation", "decompose", "h_matrix_is_mutable",
-    "n_transforms",
+    "n_transforms", "allow_mirror", "rotation",
     # images
     "shape", "width", "height", "n_pixels", "n_elements", "n_channels", "diagonal", "indices", "n_true", "n_false", "all_true", "proportion_true",
     "proportion_false", "true_indices", "false_indices", "bounds_true", "bounds_false", "masked_pixels", "n_true_pixels", "n_false_pixels", "n_true_elements",
